@@ -10,7 +10,7 @@ import ast
 from ..rulekit import *
 from ..norm import Normalizer, NormError
 from ..exc import EscapeAnalysis
-from ._kit_c06 import SymExec, txt, parse as P, callable_body, _walk_values
+from ._kit_c06 import SymExec, ShapedEscapes, txt, parse as P, callable_body, _walk_values, apply_callable, filtered_iter, handler_types
 
 R = Rules(
     "C06",
@@ -60,6 +60,12 @@ class _Agg:
     def __init__(self, ctx, fi):
         self.ctx, self.fi = ctx, fi
         self.items = {}
+        self.unfollowed = set()
+
+    def saw(self, sx, paths):
+        """remember the helpers with effects that the executor could not look into on these paths"""
+        for p in paths:
+            self.unfollowed |= sx.unfollowed(p)
 
     def add(self, desc, ok, node, detail=None, construct=None):
         k = (desc, construct if construct is not None else id(node))
@@ -70,6 +76,9 @@ class _Agg:
         return ok
 
     def flush(self):
+        if self.unfollowed and any(not it[1] for it in self.items.values()):
+            # a failing obligation on paths with an unexplored helper is not a finding: refuse
+            raise AnalysisError("%s calls %s, whose effects the path executor does not follow (not a function of the confirmed tree, not expanded by the canonicalisation)" % (self.fi.short, ", ".join(sorted(q[len("aiocoap."):] if q.startswith("aiocoap.") else q for q in self.unfollowed))))
         for desc, ok, node, detail, construct in self.items.values():
             self.ctx.ob(desc, ok, self.fi, node, detail=detail, construct=construct)
         self.items = {}
@@ -92,11 +101,11 @@ def _end_class(EA, fi, p):
     return _exc_of(EA, fi, ev) if ev is not None else None
 
 
-def _handler_catches(cfg, hid, names):
+def _handler_catches(cfg, hid, names, prog=None, module=None):
     h = cfg.nodes[hid].ast
     if h.type is None:
         return True
-    ts = h.type.elts if isinstance(h.type, ast.Tuple) else [h.type]
+    ts = handler_types(prog, module, h) if module is not None else (h.type.elts if isinstance(h.type, ast.Tuple) else [h.type])
     got = {(chain(t) or "").split(".")[-1] for t in ts}
     return bool(got & (set(names) | {"Exception", "BaseException"}))
 
@@ -163,6 +172,22 @@ def _block_domains(opt, fields):
     as_integer >> 4 is unsigned, more = bool(bit 3), size exponent = 3 bits): `number > 0`, `number >= 1`,
     `number != 0`, `number` are the same fact, as are `more`, `more == 1`, `more is True`."""
     return {"%s.%s" % (opt, fields[0]): (0, float("inf")), "%s.%s" % (opt, fields[1]): (0, 1), "%s.%s" % (opt, fields[2]): (0, 7)}
+
+
+def _declare_blocks(prog, sx):
+    """Block option values (`<x>.opt.block1`, `<x>.opt.block2`, BlockwiseTuple(...)) are namedtuples of the program:
+    components by index or by name, their properties (`size`, `start`, `is_bert`) and side-effect-free methods
+    (`is_valid_for_payload_size`) mean what optiontypes.BlockOption.BlockwiseTuple defines."""
+    ci = prog.cls("optiontypes.BlockOption.BlockwiseTuple")
+    fields = _bt_fields(prog)
+
+    def pred(e):
+        if isinstance(e, ast.Attribute) and e.attr in ("block1", "block2") and isinstance(e.value, ast.Attribute) and e.value.attr == "opt":
+            return True
+        return isinstance(e, ast.Call) and (chain(e.func) or "").split(".")[-1] == "BlockwiseTuple"
+
+    sx.declare_type(pred, ci, fields)
+    return sx
 
 
 def _field_of(e, fields):
@@ -242,8 +267,8 @@ def a(ctx):
     fi = prog.func(BW + "Block1Spool.feed_and_take")
     rq = params(fi)[0]
     cfg = cfg_of(fi)
-    EA = EscapeAnalysis(prog)
-    sx = SymExec(prog, fi)
+    EA = ShapedEscapes(prog)
+    sx = _declare_blocks(prog, SymExec(prog, fi))
     sx.nonempty_when_set = {"%s.opt.block1" % rq}
     sx.domains = _block_domains("%s.opt.block1" % rq, _bt_fields(prog))
     paths = sx.paths()
@@ -263,6 +288,7 @@ def a(ctx):
         "lemmas": EA.lemmas_used,
         "by_unique_name": sorted(set(EA.res.by_unique_name)),
         "escape_set": sorted(repr(e) for e in es),
+        "call_shape_flow": [list(x) for x in EA.flow_log],
     }
     ctx.floor("functions in the closure of feed_and_take", len(funcs), 6)
     ctx.need(not EA.unresolved, "unresolved calls in the region: %s" % EA.unresolved[:4])
@@ -286,6 +312,7 @@ def a(ctx):
     # which condition yields which answer: 2.31 only for blocks that announce more
     MORE = P("%s.opt.block1.more" % rq)
     ag = _Agg(ctx, fi)
+    ag.saw(sx, paths)
     for p in paths:
         ev = p.raised()
         if ev is not None and _exc_of(EA, fi, ev) == CONT:
@@ -298,11 +325,12 @@ def b(ctx):
     prog = ctx.prog
     fi = prog.func(BW + "Block1Spool.feed_and_take")
     rq = params(fi)[0]
-    EA = EscapeAnalysis(prog)
-    sx = SymExec(prog, fi)
+    EA = ShapedEscapes(prog)
+    sx = _declare_blocks(prog, SymExec(prog, fi))
     paths = sx.paths()
     own = P("%s.opt.block1" % rq)
     ag = _Agg(ctx, fi)
+    ag.saw(sx, paths)
     n = 0
     for p in paths:
         ev = p.raised()
@@ -330,6 +358,7 @@ def b(ctx):
     tm = prog.func(BW + "ContinueException.to_message")
     st = SymExec(prog, tm)
     ag = _Agg(ctx, tm)
+    ag.saw(st, st.paths())
     tpaths = [p for p in st.paths() if p.end != "raise"]
     ctx.floor("normal paths of ContinueException.to_message", len(tpaths), 1)
     for p in tpaths:
@@ -368,6 +397,8 @@ def _iter_roles(sx, it, target, coll):
     if isinstance(it, ast.Call) and isinstance(it.func, ast.Attribute) and not it.args and not it.keywords and chain(it.func.value) == coll:
         if it.func.attr == "items" and isinstance(target, (ast.Tuple, ast.List)) and len(target.elts) == 2:
             return target.elts[0], target.elts[1]
+        if it.func.attr == "items" and isinstance(target, ast.Name):
+            return (ast.Subscript(value=target, slice=ast.Constant(value=0), ctx=ast.Load()), ast.Subscript(value=target, slice=ast.Constant(value=1), ctx=ast.Load()))
         if it.func.attr == "keys" and isinstance(target, ast.Name):
             return target, ast.Subscript(value=P(coll), slice=target, ctx=ast.Load())
         return None
@@ -381,10 +412,11 @@ def c(ctx):
     prog = ctx.prog
     fi = prog.func(BW + "_extract_block_key")
     m = params(fi, skip_self=False)[0]
-    sx = SymExec(prog, fi)
+    sx = _declare_blocks(prog, SymExec(prog, fi))
     paths = [p for p in sx.paths() if p.end != "raise"]
     ctx.need(len(paths) >= 1 and all(p.end == "return" and p.ret is not None for p in paths), "_extract_block_key does not return a value on every path")
     ag = _Agg(ctx, fi)
+    ag.saw(sx, paths)
     for p in paths:
         rnode = next(ev.node for ev in reversed(p.events) if ev.kind == "ret")
         v = p.ret
@@ -418,6 +450,7 @@ def c(ctx):
     sg = SymExec(prog, gk)
     gpaths = sg.paths()
     ag = _Agg(ctx, gk)
+    ag.saw(sg, gpaths)
     sites = 0
 
     def member(o, elt, facts_true, node, what):
@@ -458,17 +491,33 @@ def c(ctx):
         if p.ret is None:
             continue
         roots = [p.ret] + [v for k, v in p.objs.items() if k in names_in(p.ret)]
+        imports = gk.module.imports
         for root in roots:
             for n in ast.walk(root):
-                if isinstance(n, (ast.ListComp, ast.GeneratorExp, ast.SetComp)) and len(n.generators) == 1 and opt_iter(n.generators[0].iter) and isinstance(n.generators[0].target, ast.Name):
+                # an element per option of the (possibly filtered) option list: comprehension / generator, map(f, options)
+                tgt = elt = None
+                conds = []
+                if isinstance(n, (ast.ListComp, ast.GeneratorExp, ast.SetComp)) and len(n.generators) == 1 and isinstance(n.generators[0].target, ast.Name) and not n.generators[0].is_async:
                     g = n.generators[0]
-                    cond = ast.BoolOp(op=ast.And(), values=list(g.ifs)) if len(g.ifs) > 1 else (g.ifs[0] if g.ifs else ast.Constant(value=True))
-                    sg._defs_now = p.defs
-                    sg._env_now = p.env
-                    outs = [f for b_, f in sg.decide(cond, p.facts) if b_]
-                    rnode = next(ev.node for ev in reversed(p.events) if ev.kind == "ret")
-                    ctx.need(outs, "get_cache_key: the comprehension filter is never true")
-                    member(g.target, n.elt, outs, rnode, "comprehension")
+                    r = filtered_iter(sg, p, g.iter, ast.Name(id=g.target.id, ctx=ast.Load()), imports)
+                    if r is not None and opt_iter(r[0]):
+                        tgt, elt, conds = g.target, n.elt, list(r[1]) + list(g.ifs)
+                elif isinstance(n, ast.Call) and chain(n.func) == "map" and len(n.args) == 2 and not n.keywords:
+                    el = ast.Name(id="<option>", ctx=ast.Load())
+                    r = filtered_iter(sg, p, n.args[1], el, imports)
+                    if r is not None and opt_iter(r[0]):
+                        elt = apply_callable(sg, p, n.args[0], [el], imports)
+                        ctx.need(elt is not None, "get_cache_key: the function mapped over the options (%s) is outside the rule's vocabulary" % txt(n.args[0]))
+                        tgt, conds = el, list(r[1])
+                if tgt is None:
+                    continue
+                cond = ast.BoolOp(op=ast.And(), values=conds) if len(conds) > 1 else (conds[0] if conds else ast.Constant(value=True))
+                sg._defs_now = p.defs
+                sg._env_now = p.env
+                outs = [f for b_, f in sg.decide(cond, p.facts) if b_]
+                rnode = next(ev.node for ev in reversed(p.events) if ev.kind == "ret")
+                ctx.need(outs, "get_cache_key: the comprehension filter is never true")
+                member(tgt, elt, outs, rnode, "comprehension")
     ctx.floor("cache key accumulation sites", sites, 1)
     ag.flush()
 
@@ -478,8 +527,8 @@ def d(ctx):
     prog = ctx.prog
     fi = prog.func("message.Message._append_request_block")
     nb = params(fi)[0]
-    EA = EscapeAnalysis(prog)
-    sx = SymExec(prog, fi)
+    EA = ShapedEscapes(prog)
+    sx = _declare_blocks(prog, SymExec(prog, fi))
     sx.domains = _block_domains("%s.opt.block1" % nb, _bt_fields(prog))
     # the BERT case (size exponent 7: any multiple of the block size) belongs to C05
     paths = sx.paths(assume=[("%s.opt.block1.size_exponent == 7" % nb, False)])
@@ -487,6 +536,7 @@ def d(ctx):
     MORE = P("%s.opt.block1.more" % nb)
     EQSZ = P("len(%s.payload) == %s.opt.block1.size" % (nb, nb))
     ag = _Agg(ctx, fi)
+    ag.saw(sx, paths)
     n_app = n_bad = 0
     for p in paths:
         ctx.need(p.end in ("return", "fall", "raise"), "_append_request_block: loop in the path model")
@@ -524,7 +574,7 @@ def e(ctx):
     prog = ctx.prog
     fi = prog.func(BW + "Block1Spool.feed_and_take")
     rq = params(fi)[0]
-    sx = SymExec(prog, fi)
+    sx = _declare_blocks(prog, SymExec(prog, fi))
     sx.nonempty_when_set = {"%s.opt.block1" % rq}
     sx.domains = _block_domains("%s.opt.block1" % rq, _bt_fields(prog))
     paths = sx.paths()
@@ -537,6 +587,7 @@ def e(ctx):
     ctx.floor("normal paths of feed_and_take", len([p for p in paths if p.end == "return"]), 2)
     ctx.ob("feed_and_take is atomic (plain def)", is_plain_sync(fi), fi, fi.node, construct="def feed_and_take")
     ag = _Agg(ctx, fi)
+    ag.saw(sx, paths)
     n_store = n_app = 0
     for p in paths:
         ctx.need(p.end in ("return", "fall", "raise"), "feed_and_take: loop in the path model")
@@ -580,6 +631,7 @@ def e(ctx):
     rpaths = sr.paths()
     PREQ = P("%s.request" % pipe)
     ag = _Agg(ctx, rp)
+    ag.saw(sr, rpaths)
     n_asm = n_plain = 0
     eoi = prog.func(BW + "Block2Cache.extract_or_insert")
     eoi_p = params(eoi)
@@ -690,7 +742,7 @@ def f(ctx):
     fields = _bt_fields(prog)
     ctx.need(len(fields) == 3, "BlockwiseTuple does not have three fields")
     B2 = P("%s.opt.block2" % rq)
-    sx = SymExec(prog, fi)
+    sx = _declare_blocks(prog, SymExec(prog, fi))
     # a block option value is None or a (non-empty) BlockwiseTuple: `x or default` and `x is None` are the same fact
     sx.nonempty_when_set = {txt(B2)}
     sx.domains = _block_domains("%s.opt.block2" % rq, fields)
@@ -699,8 +751,9 @@ def f(ctx):
     FIRST = P("%s.opt.block2 is None or %s.opt.block2.%s == 0" % (rq, rq, fields[0]))
     K = P("_extract_block_key(%s)" % rq)
     F = "self._completes"
-    EA = EscapeAnalysis(prog)
+    EA = ShapedEscapes(prog)
     ag = _Agg(ctx, fi)
+    ag.saw(sx, paths)
     n_build = n_look = n_slice = 0
     miss_sites = {}
     for p in paths:
@@ -721,7 +774,7 @@ def f(ctx):
             ag.add("the cache is read with the transfer key of this request", same(key, K), n, detail=txt(key))
         # 2. an unknown / expired transfer is 4.08
         for ev, hid, key in misses:
-            okh = _handler_catches(cfg, hid, ("KeyError", "LookupError")) and p.end == "raise" and _end_class(EA, fi, p) == INCOMPLETE and not builds
+            okh = _handler_catches(cfg, hid, ("KeyError", "LookupError"), prog, fi.module) and p.end == "raise" and _end_class(EA, fi, p) == INCOMPLETE and not builds
             it = miss_sites.setdefault(ev.nid, [ev.node, True])
             it[1] = it[1] and okh
         # 3. slicing
@@ -796,6 +849,7 @@ def f(ctx):
     start_p = N.poly(P(START))
     end_p = N.poly(P("%s + %s" % (START, SIZE)))
     ag = _Agg(ctx, xb)
+    ag.saw(xs, xpaths)
     n_ret = n_raise = 0
     for p in xpaths:
         ctx.need(p.end in ("return", "raise"), "_extract_block: a path neither returns a message nor raises")
@@ -857,6 +911,38 @@ def f(ctx):
     ag.flush()
 
 
+def _as_filtered_dict(st, p, comp, imports):
+    """A dictionary built by filtering: {K: V for T in IT if C}, dict((K, V) for T in IT if C), dict(filter(P, IT)),
+    dict(itertools.filterfalse(P, IT)), with IT itself possibly `filter(P, X)` / `list(X)` / a filtering generator.
+    -> (key expr, value expr, element target, base iterable, [conditions]) | None (not of this kind) | "nested" | "filter"
+    (a filter whose predicate is not understood)."""
+    if isinstance(comp, ast.Call) and chain(comp.func) == "dict" and len(comp.args) == 1 and not comp.keywords:
+        a0 = comp.args[0]
+        if isinstance(a0, (ast.GeneratorExp, ast.ListComp)) and isinstance(a0.elt, ast.Tuple) and len(a0.elt.elts) == 2:
+            comp = ast.DictComp(key=a0.elt.elts[0], value=a0.elt.elts[1], generators=a0.generators)
+        else:
+            el = ast.Name(id="<item>", ctx=ast.Load())
+            r = filtered_iter(st, p, a0, el, imports)
+            if r is None:
+                return "filter"
+            it, conds = r
+            if not conds:
+                return None
+            return (ast.Subscript(value=el, slice=ast.Constant(value=0), ctx=ast.Load()), ast.Subscript(value=el, slice=ast.Constant(value=1), ctx=ast.Load()), el, it, conds)
+    if isinstance(comp, ast.DictComp):
+        if len(comp.generators) != 1 or comp.generators[0].is_async:
+            return "nested"
+        g_ = comp.generators[0]
+        tgt = g_.target
+        el = ast.Tuple(elts=list(tgt.elts), ctx=ast.Load()) if isinstance(tgt, (ast.Tuple, ast.List)) else tgt
+        r = filtered_iter(st, p, g_.iter, el, imports)
+        if r is None:
+            return "filter"
+        it, conds = r
+        return comp.key, comp.value, tgt, it, list(conds) + list(g_.ifs)
+    return None
+
+
 def _tick_filter(ctx, st, tk, p):
     """The expiry step on one path of TimeoutDict._tick.  Recognised spellings of "keep the entries whose key is in
     _recently_accessed": a dict comprehension / dict(generator) over the old items assigned to self._items, a fresh
@@ -904,18 +990,19 @@ def _tick_filter(ctx, st, tk, p):
     V = ws[-1].value
     widx = p.events.index(ws[-1])
     comp = p.objs[V.id] if isinstance(V, ast.Name) and V.id in p.objs else V
-    if isinstance(comp, ast.Call) and chain(comp.func) == "dict" and len(comp.args) == 1 and not comp.keywords and isinstance(comp.args[0], (ast.GeneratorExp, ast.ListComp)):
-        ge = comp.args[0]
-        if isinstance(ge.elt, ast.Tuple) and len(ge.elt.elts) == 2:
-            comp = ast.DictComp(key=ge.elt.elts[0], value=ge.elt.elts[1], generators=ge.generators)
-    if isinstance(comp, ast.DictComp):
-        if len(comp.generators) != 1 or comp.generators[0].is_async:
-            return False, "nested comprehension", V, widx, anchor
-        g_ = comp.generators[0]
-        roles = _iter_roles(st, g_.iter, g_.target, ITEMS)
-        if roles is None or not (same(comp.key, roles[0]) and same(comp.value, roles[1])):
-            return False, "element %s: %s for %s in %s" % (txt(comp.key), txt(comp.value), txt(g_.target), txt(g_.iter)), V, widx, anchor
-        cond = ast.BoolOp(op=ast.And(), values=list(g_.ifs)) if len(g_.ifs) > 1 else (g_.ifs[0] if g_.ifs else ast.Constant(value=True))
+    flt = _as_filtered_dict(st, p, comp, tk.module.imports)
+    if flt == "nested":
+        return False, "nested comprehension", V, widx, anchor
+    ctx.need(flt != "filter", "_tick: a filter of the new value of self._items (%s) is outside the rule's vocabulary" % txt(V))
+    if flt is not None:
+        key_, value_, target_, iter_, conds_ = flt
+        roles = _iter_roles(st, iter_, target_, ITEMS)
+        if roles is None or not (same(key_, roles[0]) and same(value_, roles[1])):
+            return False, "element %s: %s for %s in %s" % (txt(key_), txt(value_), txt(target_), txt(iter_)), V, widx, anchor
+        cond = ast.BoolOp(op=ast.And(), values=list(conds_)) if len(conds_) > 1 else (conds_[0] if conds_ else ast.Constant(value=True))
+        # predicates given as nested functions are evaluated in place, with the locals in force at the assignment
+        st._defs_now = p.defs
+        st._env_now = ws[-1].env
         for b_, f_ in st.decide(cond, ws[-1].facts):
             if not (st.entails(f_, recent(roles[0])) if b_ else st.refutes(f_, recent(roles[0]))):
                 return False, "an entry is %s %s" % ("kept" if b_ else "dropped", _where(st, f_)), V, widx, anchor
@@ -963,6 +1050,7 @@ def g(ctx):
     sa = SymExec(prog, acc, include_exc=False)
     IDLE = P("self._timeout is None")
     ag = _Agg(ctx, acc)
+    ag.saw(sa, sa.paths())
     for p in sa.paths():
         if p.end == "raise":
             continue
@@ -976,6 +1064,7 @@ def g(ctx):
     so = prog.func(td + "_start_over")
     ss = SymExec(prog, so, include_exc=False)
     ag = _Agg(ctx, so)
+    ag.saw(ss, ss.paths())
     for p in ss.paths():
         if p.end == "raise":
             continue
@@ -993,6 +1082,7 @@ def g(ctx):
     tk = prog.func(td + "_tick")
     st = SymExec(prog, tk, include_exc=False)
     ag = _Agg(ctx, tk)
+    ag.saw(st, st.paths())
     n_paths = 0
     for p in st.paths():
         if p.end == "raise":
